@@ -28,14 +28,19 @@ def log(*a):
 
 
 # ------------------------------------------------------------------------------ scratch / build
-def prepare_scratch(tag='run'):
-    base = tempfile.mkdtemp(prefix=f'mirsym-{tag}-', dir=os.environ.get('VERIF_SCRATCH', '/var/tmp'))
+def prepare_scratch(tag='run', base=None):
+    if base is None:
+        base = tempfile.mkdtemp(prefix=f'mirsym-{tag}-', dir=os.environ.get('VERIF_SCRATCH', '/var/tmp'))
+    else:
+        os.makedirs(base)
     repo = os.path.join(base, 'repo')
     subprocess.check_call(['rsync', '-a', '--exclude', 'target', '--exclude', '.git', REPO + '/', repo + '/'])
+    hdir = os.path.join(base, 'harness')
+    shutil.copytree(HARNESS_DIR, hdir)
     with open(os.path.join(repo, 'src/lib.rs'), 'a') as f:
-        f.write(f'\n#[path = "{HARNESS_DIR}/mod.rs"]\n#[allow(missing_docs)]\npub mod verif_harness;\n')
+        f.write(f'\n#[path = "{hdir}/mod.rs"]\n#[allow(missing_docs)]\npub mod verif_harness;\n')
     for mod, shim in MOUNTS.items():
-        p = os.path.join(HARNESS_DIR, shim)
+        p = os.path.join(hdir, shim)
         src = os.path.join(repo, 'src', mod + '.rs')
         if os.path.exists(p) and os.path.exists(src):
             with open(src, 'a') as f:
@@ -78,7 +83,7 @@ _W = {}
 def _worker_init(mir_path, srcroot, kf, seed, step_cap, opts):
     from .program import Program
     from .engine import Engine
-    prog = Program(open(mir_path).read(), srcroot, extra_src=[HARNESS_DIR])
+    prog = Program(open(mir_path).read(), srcroot, extra_src=[os.path.join(os.path.dirname(srcroot), 'harness')])
     _W['prog'] = prog
     _W['mk'] = lambda: Engine(prog, kf_listed=kf, seed=seed, step_cap=step_cap)
     _W['E'] = _W['mk']()
